@@ -101,7 +101,7 @@ def _establishing(v: FnView, fact: str) -> list:
     return out
 
 
-def need_holds(v: FnView, node: ast.AST, alts: list[str], raw: bool = False) -> bool:
+def need_holds(v: FnView, node: ast.AST, alts: list[str], raw: bool = False, nonnull: str | None = None) -> bool:
     """Every path from the function entry to `node` passes a condition edge
     that establishes one of the alternatives (or the short-circuit context of
     `node` inside its expression does)."""
@@ -116,7 +116,7 @@ def need_holds(v: FnView, node: ast.AST, alts: list[str], raw: bool = False) -> 
         if len(fs) != 1:
             if len(alts) != 1:
                 raise AnalysisError(f"gate table: a compound need `{a}` cannot be an alternative")
-            return all(need_holds(v, node, [f], raw=True) for f in fs)
+            return all(need_holds(v, node, [f], raw=True, nonnull=nonnull) for f in fs)
         if fs[0].startswith("re:"):
             if has_fact(local, fs[0][3:]):
                 return True
@@ -127,16 +127,16 @@ def need_holds(v: FnView, node: ast.AST, alts: list[str], raw: bool = False) -> 
     if tn is None:
         raise AnalysisError(f"no CFG node for `{src(node)[:60]}` in {v.fn.key}")
     through = [x for x in through if x is not tn]
-    return bool(through) and v.cfg.must_pass(tn, through)
+    return bool(through) and v.cfg.must_pass(tn, through, nonnull)
 
 
-def require(report: Report, rule: str, v: FnView, node: ast.AST, needs: list, what: str, why: str) -> bool:
+def require(report: Report, rule: str, v: FnView, node: ast.AST, needs: list, what: str, why: str, nonnull: str | None = None) -> bool:
     """Obligation: `node` is evaluated only under every need (a list entry is a
     disjunction of alternatives, decided path-wise).  Returns True when it holds."""
     missing = []
     for p in needs:
         alts = [p] if isinstance(p, str) else list(p)
-        if not need_holds(v, node, alts):
+        if not need_holds(v, node, alts, nonnull=nonnull):
             missing.append(" | ".join(alts))
     construct = " ".join(src(node).split())[:120]
     if missing:
